@@ -65,6 +65,11 @@ fn observe_report(rep: &TaxReport) {
 }
 
 /// parse -> validate -> calculate -> observe, each under catch_unwind. Returns (stage reached, panic stage+msg)
+pub fn pipeline_stage(text: &str) -> String {
+    let (stage, pan) = pipeline_text(text);
+    format!("{stage} {pan:?}")
+}
+
 fn pipeline_text(text: &str) -> (&'static str, Option<(String, String)>) {
     let p = catch_unwind(AssertUnwindSafe(|| parse_file(text)));
     match p {
